@@ -72,71 +72,8 @@ def _exp(v):
     return -(e - 1) if m == 0.5 else -1
 
 
-def run_once(case):
-    """one theoretical(phi) call on a fresh object with every table access recorded"""
-    import gcmpy
-    motifs = [(m[0], list(m[1]), [tuple(e) for e in m[2]]) for m in case["motifs"]]
-    G = make_graph(motifs, case.get("isolated", 0))
-    phi = case["phi"]
-    phi_kind = "zero" if phi == 0 else "one" if phi == 1 else "interior"
-    events = []
-
-    bulk = []
-
-    class RecDict(dict):
-        def __getitem__(self, k):
-            v = dict.__getitem__(self, k)
-            events.append(("r", k, v))
-            return v
-
-        def get(self, k, d=None):
-            if k in self:
-                return self[k]
-            return d
-
-        # bulk access (items / values / iteration) cannot be attributed to single messages: the read clauses are then not judged
-        def items(self):
-            bulk.append(len(events)); return dict.items(self)
-
-        def values(self):
-            bulk.append(len(events)); return dict.values(self)
-
-        def __iter__(self):
-            bulk.append(len(events)); return dict.__iter__(self)
-
-        def __setitem__(self, k, v):
-            events.append(("w", k, v))
-            dict.__setitem__(self, k, v)
-
-    class RecMP(gcmpy.MessagePassing):
-        @property
-        def _H_tau(self):
-            return self.__dict__["_H"]
-
-        @_H_tau.setter
-        def _H_tau(self, d):
-            self.__dict__["_H"] = RecDict(d)
-    tr = {"kind": "run", "case": case, "cover": [{"id": mid, "V": vs, "E": [list(e) for e in es]} for mid, vs, es in motifs], "nodes": [int(v) for v in G.nodes()],
-          "N": G.order(), "phi_kind": phi_kind, "iterations": case["iterations"], "events_known": False, "init_keys": [], "init_all_half": True,
-          "updates": [], "final_reads": [], "final_reads_known": False, "raised": "", "answer_is_zero": False, "answer_decided": False,
-          "answer": {"n": 0, "ok": False, "D": 1}, "table": [], "xmax": 0}
-    try:
-        mp = RecMP(G, iterations=case["iterations"])
-        orig = mp.resolve_equation
-
-        def wrapped(focal, label, prods, *a, **k):
-            events.append(("c", int(focal), sorted(int(j) for j in prods)))
-            return orig(focal, label, prods, *a, **k)
-        mp.resolve_equation = wrapped
-        with watchdog(120):
-            ans = mp.theoretical(phi)
-    except Timeout:
-        raise
-    except Exception as ex:
-        tr["raised"] = "%s: %s" % (type(ex).__name__, str(ex)[:80])
-        return tr
-    tr["answer_is_zero"] = ans == 0.0
-    tr["answer_float"] = float(ans)
+def _digest(tr, events, bulk, mp, motifs, phi, phi_kind, G, ans):
+    """turn the recorded table accesses into init / update / final-read records (raises when the table has another shape)"""
     if events:
         tr["events_known"] = True
         first_call = next((n for n, e in enumerate(events) if e[0] == "c"), len(events))
@@ -190,6 +127,87 @@ def run_once(case):
                 tr["answer"] = {"n": n, "ok": bool(ok), "D": D}
                 tr["table"] = [{"v": int(v), "m": int(m), "e": e} for (v, m), e in sorted(exps.items())]
                 tr["xmax"] = xmax
+
+
+
+def run_once(case):
+    """one theoretical(phi) call on a fresh object with every table access recorded"""
+    import gcmpy
+    motifs = [(m[0], list(m[1]), [tuple(e) for e in m[2]]) for m in case["motifs"]]
+    G = make_graph(motifs, case.get("isolated", 0))
+    phi = case["phi"]
+    phi_kind = "zero" if phi == 0 else "one" if phi == 1 else "interior"
+    events = []
+
+    bulk = []
+
+    class RecDict(dict):
+        def __getitem__(self, k):
+            v = dict.__getitem__(self, k)
+            events.append(("r", k, v))
+            return v
+
+        def get(self, k, d=None):
+            if k in self:
+                return self[k]
+            return d
+
+        # bulk access (items / values / iteration) cannot be attributed to single messages: the read clauses are then not judged
+        def items(self):
+            bulk.append(len(events)); return dict.items(self)
+
+        def values(self):
+            bulk.append(len(events)); return dict.values(self)
+
+        def __iter__(self):
+            bulk.append(len(events)); return dict.__iter__(self)
+
+        def __setitem__(self, k, v):
+            events.append(("w", k, v))
+            dict.__setitem__(self, k, v)
+
+    class RecMP(gcmpy.MessagePassing):
+        @property
+        def _H_tau(self):
+            try:
+                return self.__dict__["_H"]
+            except KeyError:
+                raise AttributeError("_H_tau")
+
+        @_H_tau.setter
+        def _H_tau(self, d):
+            self.__dict__["_H"] = RecDict(d)
+    tr = {"kind": "run", "case": case, "cover": [{"id": mid, "V": vs, "E": [list(e) for e in es]} for mid, vs, es in motifs], "nodes": [int(v) for v in G.nodes()],
+          "N": G.order(), "phi_kind": phi_kind, "iterations": case["iterations"], "events_known": False, "init_keys": [], "init_all_half": True,
+          "updates": [], "final_reads": [], "final_reads_known": False, "raised": "", "answer_is_zero": False, "answer_decided": False,
+          "answer": {"n": 0, "ok": False, "D": 1}, "table": [], "xmax": 0}
+    try:
+        mp = RecMP(G, iterations=case["iterations"])
+        orig = mp.resolve_equation
+
+        def wrapped(focal, label, prods, *a, **k):
+            events.append(("c", int(focal), sorted(int(j) for j in prods)))
+            return orig(focal, label, prods, *a, **k)
+        mp.resolve_equation = wrapped
+        with watchdog(120):
+            ans = mp.theoretical(phi)
+    except Timeout:
+        raise
+    except Exception as ex:
+        tr["raised"] = "%s: %s" % (type(ex).__name__, str(ex)[:80])
+        return tr
+    tr["answer_is_zero"] = ans == 0.0
+    tr["answer_float"] = float(ans)
+    blank = {k: (list(v) if isinstance(v, list) else dict(v) if isinstance(v, dict) else v) for k, v in tr.items()}
+    try:
+        _digest(tr, events, bulk, mp, motifs, phi, phi_kind, G, ans)
+    except Exception as ex:
+        # the private message table is not the flat {(vertex, motif): float} dictionary any more (renamed, nested, slots ...):
+        # per-message bookkeeping is not observable; only the answers are judged
+        keep = {"answer_is_zero": tr["answer_is_zero"], "answer_float": tr["answer_float"]}
+        tr.clear(); tr.update(blank); tr.update(keep)
+        tr["events_known"], tr["final_reads_known"], tr["answer_decided"] = False, False, False
+        tr["unobservable"] = "%s: %s" % (type(ex).__name__, str(ex)[:60])
     return tr
 
 
